@@ -1456,10 +1456,12 @@ class Parameter(_ParameterBase):
     def _trigger_event(self, attribute, old, new):
         event = Event(what=attribute, name=self.name, obj=None, cls=self.owner,
                       old=old, new=new, type=None)
-        for watcher in self.watchers[attribute]:
-            self.owner.param._call_watcher(watcher, event)
-        if not self.owner.param._BATCH_WATCH:
-            self.owner.param._batch_call_watchers()
+        try:
+            for watcher in self.watchers[attribute]:
+                self.owner.param._call_watcher(watcher, event)
+        finally:
+            if not self.owner.param._BATCH_WATCH:
+                self.owner.param._batch_call_watchers()
 
     def __getattribute__(self, key):
         """
@@ -1622,10 +1624,12 @@ class Parameter(_ParameterBase):
                       old=_old, new=val, type=None)
 
         # Copy watchers here since they may be modified inplace during iteration
-        for watcher in sorted(watchers, key=lambda w: w.precedence):
-            obj.param._call_watcher(watcher, event)
-        if not obj.param._BATCH_WATCH:
-            obj.param._batch_call_watchers()
+        try:
+            for watcher in sorted(watchers, key=lambda w: w.precedence):
+                obj.param._call_watcher(watcher, event)
+        finally:
+            if not obj.param._BATCH_WATCH:
+                obj.param._batch_call_watchers()
 
     def _validate_value(self, value, allow_None):
         """Validate the parameter value against constraints.
